@@ -15,6 +15,23 @@ CLAIMED = {
    ref="4 C01"),
 }
 
+CLAIMED["C10"] = dict(
+   text="Lean theorem C10_subalignment_preserved: for every guide tree, every node v and every valid aligner, the final rows of v's members with "
+        "their all-gap columns removed are exactly v's alignment at completion (one merge applies the same whole-column insertion to every member of a side). "
+        "Tied to the code by the NODE_DONE hook: snapshot of member gap vectors at completion vs projection of the real final alignment, on UPGMA and k-means trees, "
+        "threads 1/4/16 with schedule jitter, plus replay of every real merge through the model.",
+   note="Premise `Aligner.Valid` monitored on every merge. Trusted: Lean kernel, harness hook dump, Python projection oracle.",
+   technique="Lean 4 induction along the sub-tree relation over the weave algebra; hook-based snapshot/projection oracle",
+   ref="4 C10")
+CLAIMED["C09"] = dict(
+   text="Decision logic proved outright over a model whose data is regenerated from the source on every run: default table by executing aln_param_init on "
+        "the biotype x type grid, override guards and --type word chain by parsing. Theorems: an override >= 0 replaces exactly its own field (any carrier, any values), "
+        "explicit default = implicit, single overrides, README defaults (dna/internal numbers, CorBLOSUM66_13plus / Gonnet250 reference copies), documented words select their "
+        "type, mismatching types rejected. Tie: bit-exact unit correspondence of aln_param_init/set_aln_type; end-to-end PARAM-hook observation; CLI vs library.",
+   note="Out-of-range type values represented by executed samples (-1,5,6,99). RNA penalties are not pinned (README gives no numbers). Trusted: translators T1/T2, Lean kernel.",
+   technique="Lean 4 `decide` over regenerated tables + generic case analysis; differential correspondence; end-to-end hook oracle",
+   ref="4 C09")
+
 PENDING = {}
 
 def main():
